@@ -1,18 +1,30 @@
 /-
 C20 — loading and validating arbitrary bytes never panics or hangs.
 
-Theorems about the abstract loader, the cycle-guarded and the unguarded descents of
-`KinModel.LoadSafety`, and the obligations over the regenerated tables `Gen.C20Types` / `Gen.C20Loader`.
-Full-strength statement (NOT provable of the code as it is, see the witnesses):
+Theorems about the abstract loader, the cycle-guarded, partly guarded and unguarded descents of
+`KinModel.LoadSafety`, about the drill-down / world construction of `KinModel.LoadDoc` for EVERY parsed
+document, and the obligations over the regenerated tables `Gen.C20Types` / `Gen.C20Loader`.
+Full-strength statement:
 
-    ∀ w roots fuel, load w fuel roots ≠ .outOfFuel ∧ ∀ s, load w fuel roots ≠ .panic s
-    ∧ every descent over the loaded document (validate, IsEmpty / visitJSON, derefPaths) terminates.
+    ∀ documents, the loader returns (a document or an error: no panic, no divergence) ∧
+    every descent over the loaded document (validate, visitJSON, InternalizeRefs) terminates without panic.
 
-What is proved: termination of the loader with an explicit bound for every world (`load_total`);
-absence of panics under the exclusions `KindConsistent` (finding #12) and `NoNilTarget` (new findings:
-typed-nil target, nil dereference in the drill-down) (`load_no_panic_partial`); termination of
-`(*Schema).validate` for every schema graph, cyclic or not (`validate_total`); termination of the
-unguarded descents under `Ranked` (no cycle through non-stopping nodes) with divergence witnesses.
+What is proved at full strength after the repairs a04fe6c, 25200f7, ff23d67, cbb0d05, 6bd2b91, b68fdca,
+1c81ad5, 9b25d89: termination of the loader with an explicit bound for every world (`load_total`);
+absence of panics of the loader for every parsed document and file set (`doc_load_no_panic`: the
+configuration read from the source has comma-ok assertions and the two nil guards, so no hypothesis is
+left); termination of `(*Schema).validate` on every schema graph (`validate_total`); termination of
+`InternalizeRefs` on every object graph (`internalize_total`, the call graph of its unguarded functions is
+acyclic: `deref_cycles_guarded`).
+What stays partial: `visitJSON` through compositions, `(*Header).Validate` through the encodings of its
+content and `MarshalJSON` of an internalized document have no visited set (findings CompositionCycle,
+HeaderCycle — new with 78418b3 + cbb0d05 — and CallbackCycle — changed by 1c81ad5: InternalizeRefs
+returns, the serialisation after it does not; `descend_total_partial` under `Ranked`, witness
+`witness_unguarded_cycle`); `InternalizeRefs` panics in `DefaultRefNameResolver` at a reference the loader
+left without location (findings Unresolved / UnwalkedRef: `addToSpec_partial` under `Located`, witnesses
+`witness_unresolved_pathless`, `witness_name_resolver_panics`). Each open finding has a whole document on
+which the model's outcome differs from the spec's inside exactly its class (`witness_documents`), each
+repaired one a whole document on which they agree (`regression_documents`) — evaluated by the kernel.
 -/
 import KinModel.LoadSafety
 import KinModel.Lemmas.C20Descent
@@ -28,19 +40,21 @@ open KinModel.LoadSafety KinModel.LoadTypes
 
 /-- `resolve` on any wrapper, from any loader state: with `size + fresh·(S+1)` fuel the result is never
     `outOfFuel` — every recursive call either descends to a strictly smaller node or puts a new reference
-    text in progress (`fresh` counts the texts not yet in progress; targets have size ≤ S). -/
-theorem resolve_total (w : World) (S : Nat) (hb : Bounded w S) (fuel : Nat) (n : Node) (st : St)
-    (h : n.size + fresh w st * (S + 1) ≤ fuel) : resolve w fuel n st ≠ .outOfFuel :=
-  resolve_total_aux w S hb fuel n st h
+    text in progress (`fresh` counts the texts not yet in progress; targets have size ≤ S). This covers the
+    recursive call of `resolvePathItemRef` on the copied target (9b25d89): path-item `$ref` cycles a→b→a
+    and self-references end at the in-progress test. -/
+theorem resolve_total (cfg : Cfg) (w : World) (S : Nat) (hb : Bounded w S) (fuel : Nat) (n : Node) (st : St)
+    (h : n.size + fresh w st * (S + 1) ≤ fuel) : resolve cfg w fuel n st ≠ .outOfFuel :=
+  resolve_total_aux cfg w S hb fuel n st h
 
 /-- `ResolveRefsIn` terminates for every document: cyclic, self-referential, dangling, wrong-kind references included. -/
-theorem load_total (w : World) (S : Nat) (hb : Bounded w S) (roots : List Node) (fuel : Nat)
-    (h : sizes roots + w.texts.length * (S + 1) ≤ fuel) : load w fuel roots ≠ .outOfFuel := by
+theorem load_total (cfg : Cfg) (w : World) (S : Nat) (hb : Bounded w S) (roots : List Node) (fuel : Nat)
+    (h : sizes roots + w.texts.length * (S + 1) ≤ fuel) : load cfg w fuel roots ≠ .outOfFuel := by
   unfold load
   apply stepKids_fuel
-  · intro k _ s s' hk; exact resolve_sub w fuel k s s' hk
+  · intro k _ s s' hk; exact resolve_sub cfg w fuel k s s' hk
   · intro k hk s hs
-    apply resolve_total_aux w S hb
+    apply resolve_total_aux cfg w S hb
     have h1 := size_le_sizes roots k hk
     have h2 : fresh w s ≤ w.texts.length := by unfold fresh; exact List.length_filter_le _ _
     have h3 : fresh w s * (S + 1) ≤ w.texts.length * (S + 1) := Nat.mul_le_mul_right _ h2
@@ -48,91 +62,186 @@ theorem load_total (w : World) (S : Nat) (hb : Bounded w S) (roots : List Node) 
 
 /-- more fuel never changes a result that is not `outOfFuel`: the fuel index is only a device to make the
     loader total and executable — together with `resolve_total` every wrapper has ONE outcome -/
-theorem resolve_fuel_mono (w : World) (fuel : Nat) (n : Node) (st : St)
-    (h : resolve w fuel n st ≠ .outOfFuel) : resolve w (fuel + 1) n st = resolve w fuel n st :=
-  resolve_fuel_mono_aux w fuel n st h
+theorem resolve_fuel_mono (cfg : Cfg) (w : World) (fuel : Nat) (n : Node) (st : St)
+    (h : resolve cfg w fuel n st ≠ .outOfFuel) : resolve cfg w (fuel + 1) n st = resolve cfg w fuel n st :=
+  resolve_fuel_mono_aux cfg w fuel n st h
 
 /-- the in-progress set (`visitedRefs`) only grows along a successful walk: a text is removed only by the
     resolver that inserted it -/
-theorem inprogress_only_grows (w : World) (fuel : Nat) (n : Node) (st st' : St)
-    (h : resolve w fuel n st = .ok st') : ∀ t ∈ st.inprog, t ∈ st'.inprog :=
-  resolve_sub w fuel n st st' (by simp [h, Res.st?])
+theorem inprogress_only_grows (cfg : Cfg) (w : World) (fuel : Nat) (n : Node) (st st' : St)
+    (h : resolve cfg w fuel n st = .ok st') : ∀ t ∈ st.inprog, t ∈ st'.inprog :=
+  resolve_sub cfg w fuel n st st' (by simp [h, Res.st?])
 
-/-! ## the loader does not panic — partial: findings #12 (KindClash), NilTarget, DrillNil excluded -/
+/-! ## the loader does not panic — full strength (findings KindClash, NilTarget, DrillNil are repaired) -/
 
-/-- Full statement `∀ w roots fuel s, load w fuel roots ≠ .panic s` is false (witnesses below).
-    Under the exclusions — every reference text is met by resolvers of one kind only (`KindConsistent`),
-    no drill-down ends at a typed nil pointer or dereferences nil (`NoNilTarget`) — every type assertion in
-    a backtrack callback receives the kind it asserts and the loader never panics. -/
-theorem load_no_panic_partial (w : World) (κ : Text → Kind) (roots : List Node)
-    (hk : KindConsistent w κ roots) (hn : NoNilTarget w) (fuel : Nat) (s : Site) :
-    load w fuel roots ≠ .panic s := by
+/-- every assertion in a backtrack callback is in comma-ok form and no drill-down ends at a typed nil
+    pointer: the loader never panics, whatever the reference graph (one text met as two kinds included) -/
+theorem load_no_panic (cfg : Cfg) (hc : cfg.assertsChecked) (w : World) (hn : NoNilTarget w)
+    (roots : List Node) (fuel : Nat) (s : Site) : load cfg w fuel roots ≠ .panic s := by
   unfold load
-  have hsafe := stepKids_safe (resolve w fuel) (PendingOK κ) roots St.init
-    (by intro p hp; simp [St.init] at hp)
-    (fun k hkm st hp => resolve_safe_aux w κ hk.2 hn fuel k st (kindOKs_mem κ roots k hk.1 hkm) hp)
-  exact hsafe.1 s
+  exact stepKids_safe (resolve cfg w fuel) roots St.init (fun k _ st => resolve_safe_aux cfg hc w hn fuel k st) s
 
-/-- the same for a single wrapper from any state whose registered callbacks are consistent -/
-theorem resolve_no_panic_partial (w : World) (κ : Text → Kind)
-    (hk : ∀ d t k n, (w.target d t k).node? = some n → kindOK κ n = true) (hn : NoNilTarget w)
-    (fuel : Nat) (n : Node) (st : St) (hn' : kindOK κ n = true) (hp : PendingOK κ st) (s : Site) :
-    resolve w fuel n st ≠ .panic s :=
-  (resolve_safe_aux w κ hk hn fuel n st hn' hp).1 s
+/-- the same for a single wrapper from any state -/
+theorem resolve_no_panic (cfg : Cfg) (hc : cfg.assertsChecked) (w : World) (hn : NoNilTarget w)
+    (fuel : Nat) (n : Node) (st : St) (s : Site) : resolve cfg w fuel n st ≠ .panic s :=
+  resolve_safe_aux cfg hc w hn fuel n st s
 
-/-! ### witnesses (kernel-evaluated) and non-vacuity -/
+/-- the configuration read from loader.go: ten comma-ok assertions, `isNilPointer(cursor)` after every
+    token, `c.Value != nil` before `c.Value.AdditionalProperties` (a regenerated-table obligation) -/
+theorem code_cfg_checked :
+    LoadDoc.codeCfg.assertsChecked ∧ LoadDoc.codeCfg.nilChecked = true ∧ LoadDoc.codeCfg.apGuarded = true := by
+  refine ⟨?_, by decide, by decide⟩
+  intro k
+  cases k <;> decide
 
-/-- finding #12: `/a: {$ref: #/paths/~1b}`, `/b: {get: {responses: {200: {$ref: #/paths/~1b}}}}` —
-    text 7 is in progress for the path-item resolver and met again by the response resolver -/
+/-- for EVERY parsed document, file set, entry point and switch setting: the world the driver builds has no
+    panicking target (the drill-down model with the two nil guards never yields a typed nil pointer) and
+    the loader model does not panic — no hypothesis left -/
+theorem doc_load_no_panic (ds : LoadDoc.Docs) (fuel : Nat) (s : Site) :
+    load LoadDoc.codeCfg (LoadDoc.build LoadDoc.codeCfg ds).world fuel (LoadDoc.build LoadDoc.codeCfg ds).roots ≠ .panic s :=
+  load_no_panic LoadDoc.codeCfg code_cfg_checked.1 _
+    (LoadDoc.build_noNilTarget LoadDoc.codeCfg code_cfg_checked.2.2 code_cfg_checked.2.1 ds) _ fuel s
+
+/-- the outcome the driver reports for a case is never a panic -/
+theorem doc_load_normal_or_fuel (ds : LoadDoc.Docs) :
+    (LoadDoc.build LoadDoc.codeCfg ds).load.normal = true ∨ (LoadDoc.build LoadDoc.codeCfg ds).load = .outOfFuel := by
+  have h := doc_load_no_panic ds LoadDoc.loadFuel
+  unfold LoadDoc.Built.load
+  simp only [show (LoadDoc.build LoadDoc.codeCfg ds).cfg = LoadDoc.codeCfg from rfl]
+  cases hl : load LoadDoc.codeCfg (LoadDoc.build LoadDoc.codeCfg ds).world LoadDoc.loadFuel (LoadDoc.build LoadDoc.codeCfg ds).roots with
+  | ok st => left; rfl
+  | errMust k st => left; rfl
+  | err => left; rfl
+  | panic x => exact absurd hl (h x)
+  | outOfFuel => right; rfl
+
+/-! ### regression theorems for the repaired findings (model = spec on the former witnesses) and what the
+    obligations protect against (the same inputs under the configuration of the code before the repair) -/
+
+def cfgChecked : Cfg := { assertChecked := fun _ => true, nilChecked := true, apGuarded := true }
+
+/-- former finding #12 / F-C20-1 (KindClash): `/a: {$ref: #/paths/~1b}`,
+    `/b: {get: {responses: {200: {$ref: #/paths/~1b}}}}` — text 7 is in progress for the path-item resolver
+    and met again by the response resolver; for the response resolver the target is "bad data" -/
 def w12 : World where
   texts := [7]
-  target := fun _ t _ => if t = 7 then .wrapper (.mk 4 0 .pathItem none false [.mk 6 0 .response (some 7) false []]) else .err
+  target := fun _ t k => if t = 7 ∧ k = .pathItem then .wrapper (.mk 4 0 .pathItem none false [.mk 6 0 .response (some 7) false []]) else .err
 
 def roots12 : List Node := [.mk 2 0 .pathItem (some 7) false [], .mk 4 0 .pathItem none false [.mk 6 0 .response (some 7) false []]]
 
-theorem witness_kind_clash : load w12 10 roots12 = .panic .assertKind := by decide
+/-- a04fe6c: the callback of the response resolver ignores the `*PathItem`; the load ends with the "bad
+    data" error of the second visit — a normal return -/
+theorem regression_kind_clash : load cfgChecked w12 10 roots12 = .err ∧ (load cfgChecked w12 10 roots12).normal = true := by
+  decide
 
-theorem witness_kind_clash_excluded (κ : Text → Kind) : ¬ KindConsistent w12 κ roots12 := by
-  intro h
-  have h1 := h.1
-  simp only [roots12, kindOKs, kindOK, Bool.and_eq_true, beq_iff_eq, Bool.and_true] at h1
-  have a := h1.1
-  have b := h1.2
-  rw [← a] at b
-  exact absurd b (by decide)
+/-- with an unchecked assertion (`component.Value = value.(*Response)`) the same input panics: this is what
+    `code_cfg_checked` / `asserts_comma_ok` protect against -/
+theorem unchecked_assertion_panics : load LoadDoc.oldCfg w12 10 roots12 = .panic .assertKind := by decide
 
-/-- new finding (NilTarget): `B: {$ref: #/components/schemas/A/items}` where `A` has no `items` -/
+/-- the swallowed callback leaves its wrapper without value and without location:
+    `R: {$ref: '#/x-r'}`, `x-r: {headers: {h: {$ref: '#/x-r'}}}` — text 9 resolves (raw re-decoding) to a
+    response whose header refers to text 9 again -/
+def wMix : World where
+  texts := [9]
+  target := fun _ t k => if t = 9 ∧ k = .response then .raw (.mk 20 0 .response none false [.mk 22 0 .header (some 9) false []]) else .err
+
+theorem kind_mismatch_leaves_pathless :
+    (match load cfgChecked wMix 10 [.mk 2 0 .response (some 9) false []] with
+     | .ok st => st.value.contains 2 && !st.value.contains 22 && !st.pathed.contains 22
+     | _ => false) = true := by
+  decide
+
+/-- former findings F-C20-2 (NilTarget) and F-C20-3 (DrillNil) at the level of the abstract loader: a world
+    that reports these outcomes makes the loader panic … -/
 def wNil : World where
   texts := [3]
   target := fun _ t _ => if t = 3 then .nilPtr else .err
 
-theorem witness_nil_target : load wNil 10 [.mk 2 0 .schema (some 3) false []] = .panic .typedNil ∧ ¬ NoNilTarget wNil := by
-  refine ⟨by decide, ?_⟩
-  intro h
-  have := h 0 3 .schema
-  simp [wNil, Tgt.panics] at this
-
-/-- new finding (DrillNil): `A: {$ref: #/components/schemas/B/additionalProperties}`, `B` a reference not resolved yet -/
 def wDrill : World where
   texts := [3]
   target := fun _ t _ => if t = 3 then .drillPanic else .err
 
-theorem witness_drill_nil : load wDrill 10 [.mk 2 0 .schema (some 3) false []] = .panic .drill ∧ ¬ NoNilTarget wDrill := by
-  refine ⟨by decide, ?_⟩
-  intro h
-  have := h 0 3 .schema
-  simp [wDrill, Tgt.panics] at this
+theorem nil_outcomes_would_panic :
+    load cfgChecked wNil 10 [.mk 2 0 .schema (some 3) false []] = .panic .typedNil ∧
+    load cfgChecked wDrill 10 [.mk 2 0 .schema (some 3) false []] = .panic .drill ∧
+    ¬ NoNilTarget wNil ∧ ¬ NoNilTarget wDrill := by
+  refine ⟨by decide, by decide, ?_, ?_⟩
+  · intro h; have := h 0 3 .schema; simp [wNil, Tgt.panics] at this
+  · intro h; have := h 0 3 .schema; simp [wDrill, Tgt.panics] at this
 
-/-- finding #34: `T: {$ref: #/components/schemas/T}` loads and stays without value (the model follows the code) -/
-def w34 : World where
-  texts := [5]
-  target := fun _ t _ => if t = 5 then .wrapper (.mk 2 0 .schema (some 5) false []) else .err
+section DrillRegressions
+open KinModel.LoadDoc
 
-theorem witness_unresolved : ∃ st, load w34 10 [.mk 2 0 .schema (some 5) false []] = .ok st ∧ 2 ∉ st.value := by
-  refine ⟨⟨[], [], []⟩, by decide, by simp⟩
+/-- `components: {schemas: {A: {type: object}, B: {$ref: '#/components/schemas/A/items'}}}` -/
+def docNilTarget : JV := .obj [("components", .obj [("schemas", .obj [
+  ("A", .obj [("type", .str "object")]), ("B", .obj [("$ref", .str "#/components/schemas/A/items")])])])]
+def dsNilTarget : Docs := { root := docNilTarget, files := [], ext := false, hasPath := false }
+
+/-- `A: {$ref: '#/components/schemas/B/additionalProperties'}`, `B: {$ref: '#/x-none'}` (never resolved) -/
+def docDrillNil : JV := .obj [("components", .obj [("schemas", .obj [
+  ("A", .obj [("$ref", .str "#/components/schemas/B/additionalProperties")]), ("B", .obj [("$ref", .str "#/x-none")])])])]
+def dsDrillNil : Docs := { root := docDrillNil, files := [], ext := false, hasPath := false }
+
+/-- a document without `paths`: `#/paths/~1a` passes through the nil `*Paths` -/
+def docNoPaths : JV := .obj [("components", .obj [])]
+def dsNoPaths : Docs := { root := docNoPaths, files := [], ext := false, hasPath := false }
+
+def isErr : DrillOut → Bool | .err => true | _ => false
+def isPanic : DrillOut → Bool | .panic => true | _ => false
+def isNilFound : DrillOut → Bool | .found (.nilOf _) => true | _ => false
+
+set_option maxRecDepth 100000 in
+/-- 25200f7, F-C20-2: the absent `items` of `A` is a typed nil `*SchemaRef`; the repaired drill-down reports
+    an error after that token, the code before the repair handed the nil pointer to `setRefPath` -/
+theorem regression_nil_target :
+    isErr (drillTokens codeCfg dsNilTarget 10 0 (.val (.ptr (.struct "T")) docNilTarget) ["components", "schemas", "A", "items"]) = true ∧
+    isNilFound (drillTokens oldCfg dsNilTarget 10 0 (.val (.ptr (.struct "T")) docNilTarget) ["components", "schemas", "A", "items"]) = true := by
+  decide +kernel
+
+set_option maxRecDepth 100000 in
+/-- 25200f7, F-C20-3: `additionalProperties` after a `*SchemaRef` whose `Value` is nil, and a token below the
+    nil `*Paths` — errors now, nil dereferences before -/
+theorem regression_drill_nil :
+    isErr (drillTokens codeCfg dsDrillNil 10 0 (.val (.ptr (.struct "T")) docDrillNil) ["components", "schemas", "B", "additionalProperties"]) = true ∧
+    isPanic (drillTokens oldCfg dsDrillNil 10 0 (.val (.ptr (.struct "T")) docDrillNil) ["components", "schemas", "B", "additionalProperties"]) = true ∧
+    isErr (drillTokens codeCfg dsNoPaths 10 0 (.val (.ptr (.struct "T")) docNoPaths) ["paths", "/a"]) = true ∧
+    isPanic (drillTokens oldCfg dsNoPaths 10 0 (.val (.ptr (.struct "T")) docNoPaths) ["paths", "/a"]) = true := by
+  decide +kernel
+
+/-- the general statement behind the two regressions: whatever the document, the tokens and the fuel, the
+    drill-down of the repaired code neither panics nor ends at a typed nil pointer -/
+theorem drill_never_panics (ds : Docs) (fuel doc : Nat) (text : String) :
+    drillText codeCfg ds fuel doc text ≠ .panic ∧ ∀ c, drillText codeCfg ds fuel doc text = .found c → c.isNil = false :=
+  drillText_safe codeCfg code_cfg_checked.2.2 code_cfg_checked.2.1 ds fuel doc text
+
+/-- ff23d67, F-C20-5 (second drill): `components: {headers: null}` with `$ref: '#/components/headers/H'` — the
+    raw re-read ends at `null` and fails (the first error is returned) -/
+def docNullMember : JV := .obj [("components", .obj [("headers", .null)])]
+
+set_option maxRecDepth 100000 in
+theorem regression_raw_reread_null :
+    (drillRaw { root := docNullMember, files := [], ext := false, hasPath := true } 0 ["components", "headers", "H"]).isNone = true := by
+  decide +kernel
+
+def jEncHeader : JV := .obj [("content", .obj [("multipart/form-data", .obj [("encoding", .obj [("f", .obj [("headers", .obj [("X", .obj [("$ref", .str "#/components/headers/H")])])])])])])]
+def jParamExamples : JV := .obj [("name", .str "p"), ("examples", .obj [("e", .obj [("$ref", .str "#/components/examples/E")]), ("n", .null)])]
+def jCompLinks : JV := .obj [("components", .obj [("links", .obj [("L", .obj [("$ref", .str "#/components/links/M")])])])]
+
+set_option maxRecDepth 100000 in
+/-- cbb0d05, F-C20-4 / F-C20-11 / F-C20-6: the loader's walk now visits the headers of an encoding, the
+    examples of a parameter and `components.links`; a `null` example is an empty wrapper (`errMUSTExample`) -/
+theorem regression_walk_positions :
+    (refIdsOf (toNode 10 0 .requestBody 1 jEncHeader)).length = 1 ∧
+    (refIdsOf (toNode 10 0 .parameter 1 jParamExamples)).length = 1 ∧
+    ((toNode 10 0 .parameter 1 jParamExamples).kids.any (fun k => k.empty && k.kind == .example)) = true ∧
+    (refIdsOfs (rootNodes 0 jCompLinks)).length = 1 := by
+  decide +kernel
+
+end DrillRegressions
 
 /-- non-vacuity: a recursive schema (`Pet.parent → Pet`), a parameter and a response using it, a dangling
-    text elsewhere — the exclusions hold, the bound is met, the load succeeds and every reference gets its value -/
+    text elsewhere — the hypotheses hold, the bound is met, the load succeeds, every reference gets its value
+    and its location, nothing stays in progress -/
 def wOk : World where
   texts := [1, 2]
   target := fun _ t k =>
@@ -146,17 +255,8 @@ def rootsOk : List Node := [
   .mk 20 0 .schema none false [],
   .mk 40 0 .pathItem none false [.mk 42 0 .response none false [.mk 44 0 .schema (some 1) false []]]]
 
-def κOk : Text → Kind := fun _ => .schema
-
-theorem nonvacuous_exclusions : KindConsistent wOk κOk rootsOk ∧ NoNilTarget wOk ∧ Bounded wOk 3 := by
-  refine ⟨⟨by decide, ?_⟩, ?_, ?_, ?_⟩
-  · intro d t k n h
-    simp only [wOk] at h
-    split at h
-    · simp [Tgt.node?] at h; subst h; decide
-    · split at h
-      · simp [Tgt.node?] at h; subst h; decide
-      · simp [Tgt.node?] at h
+theorem nonvacuous_hypotheses : cfgChecked.assertsChecked ∧ NoNilTarget wOk ∧ Bounded wOk 3 := by
+  refine ⟨fun _ => rfl, ?_, ?_, ?_⟩
   · intro d t k
     simp only [wOk]
     split <;> (try split) <;> simp [Tgt.panics]
@@ -172,7 +272,9 @@ theorem nonvacuous_exclusions : KindConsistent wOk κOk rootsOk ∧ NoNilTarget 
       · simp [Tgt.node?] at h
 
 theorem nonvacuous_load :
-    (match load wOk 20 rootsOk with | .ok st => st.value.contains 32 && st.value.contains 12 && st.value.contains 14 && st.value.contains 44 && st.inprog.isEmpty | _ => false) = true := by
+    (match load cfgChecked wOk 20 rootsOk with
+     | .ok st => [32, 12, 14, 44].all (fun i => st.value.contains i && st.pathed.contains i) && st.inprog.isEmpty
+     | _ => false) = true := by
   decide
 
 /-! ## `(*Schema).validate`: the threaded stack makes the descent total on every graph -/
@@ -202,7 +304,46 @@ theorem validate_needs_threading (fuel : Nat) :
 theorem validate_example : validate (fun i => if i = 0 then [0] else if i = 1 then [2, 0] else if i = 2 then [1] else []) 4 1 [] = some [1, 2, 0] := by
   decide
 
-/-! ## unguarded descents (`IsEmpty`, `visitJSON` through compositions, `derefPaths`) — partial -/
+/-! ## `InternalizeRefs` terminates on every object graph — full strength (1c81ad5; what is left of finding
+    CallbackCycle is the serialisation AFTER it, see the unguarded descent below) -/
+
+/-- the objects `InternalizeRefs` descends through, cyclic or not (a callback whose path item refers back to
+    the path item of its operation, recursive schemas, headers whose content has encodings with headers):
+    when the rank decreases along every edge out of an object whose function has no visited set, the
+    descent returns with `#unvisited guarded · (R+2) + rank + 1` fuel. `derefSchema`, `derefHeaders`,
+    `derefPaths` (1c81ad5) are guarded; the other `deref…` functions call each other without a cycle
+    (`deref_cycles_guarded`), which is the rank. -/
+theorem internalize_total (g : Graph) (guarded : Nat → Bool) (rank : Nat → Nat) (hr : UnguardedRanked g guarded rank)
+    (nodes : List Nat) (hc : Closed g nodes) (R : Nat) (hR : ∀ i ∈ nodes, rank i ≤ R) (fuel i : Nat) (vis : List Nat)
+    (hi : i ∈ nodes) (hf : unvisitedCount (nodes.filter guarded) vis * (R + 2) + rank i + 1 ≤ fuel) :
+    ∃ s', gdescend g guarded fuel i vis = some s' ∧ ∀ x ∈ vis, x ∈ s' :=
+  gdescend_total_aux g guarded rank hr nodes hc R hR fuel i vis hi hf
+
+/-- finding F-C20-10 (CallbackCycle), the part repaired by 1c81ad5: `paths./a.get.callbacks.c = $ref C`, `C./cb = $ref #/paths/~1a` —
+    object 0 is the path item `/a`, object 1 its operation's callback, whose path item is object 0 again
+    (the loader's copy shares the operations). With `derefPaths` guarded the descent returns; without the
+    visited set (the code before 1c81ad5) no amount of fuel suffices. -/
+theorem regression_callback_cycle :
+    gdescend (fun i => if i = 0 then [1] else [0]) (fun i => i == 0) 4 0 [] = some [0] ∧
+    ∀ fuel, gdescend (fun _ => [0]) (fun _ => false) fuel 0 [] = none := by
+  exact ⟨by decide, gdescend_selfloop⟩
+
+/-- non-vacuity of `internalize_total`: the graph above satisfies its hypotheses -/
+theorem internalize_example :
+    UnguardedRanked (fun i => if i = 0 then [1] else [0]) (fun i => i == 0) (fun i => if i = 0 then 0 else 1) ∧
+    Closed (fun i => if i = 0 then [1] else [0]) [0, 1] := by
+  constructor
+  · intro i hg c hc
+    have h0 : i ≠ 0 := by intro h; subst h; simp at hg
+    simp [h0] at hc; subst hc; simp [h0]
+  · intro i hi c hc
+    by_cases h0 : i = 0
+    · subst h0; simp at hc; subst hc; simp
+    · simp [h0] at hc; subst hc; simp
+
+/-! ## unguarded descents: `visitJSON` through compositions, `(*Header).Validate` through content → encoding →
+    headers, `MarshalJSON` through the path items of inline callbacks after InternalizeRefs cleared their `$ref`
+    — partial (findings CompositionCycle, HeaderCycle, CallbackCycle) -/
 
 /-- Full statement `∀ g stop i, ∃ fuel, (descend g stop fuel i).isSome` is false (witness below).
     Under `Ranked` (no cycle through non-stopping nodes) the descent terminates with `rank i + 1` fuel. -/
@@ -210,8 +351,11 @@ theorem descend_total_partial (g : Graph) (stop : Nat → Bool) (rank : Nat → 
     (fuel i : Nat) (h : rank i + 1 ≤ fuel) : ∃ b, descend g stop fuel i = some b :=
   descend_total_aux g stop rank hr fuel i h
 
-/-- findings EmptyCycle / CompositionCycle / CallbackCycle: `A: {allOf: [{$ref: A}]}` — no keyword of its
-    own, one edge back to itself: no amount of fuel suffices, and no rank exists -/
+/-- finding CompositionCycle: `A: {allOf: [{$ref: A}], default: 1}` — `visitXOFOperations` calls `visitJSON`
+    of the sub-schema with the same value and no visited set; finding CallbackCycle:
+    `paths./a.get.callbacks.c./cb = {$ref: '#/paths/~1a'}` — after InternalizeRefs `PathItem.MarshalJSON` reaches
+    the `*Operation` it came from; finding HeaderCycle: `H: {content: {m: {encoding: {f: {headers: {X: {$ref: H}}}}}}}` —
+    `Header.Validate` reaches itself: no amount of fuel suffices, and no rank exists -/
 theorem witness_unguarded_cycle :
     (∀ fuel, descend (fun _ => [0]) (fun _ => false) fuel 0 = none) ∧
     ¬ ∃ rank, Ranked (fun _ => [0]) (fun _ => false) rank := by
@@ -220,11 +364,14 @@ theorem witness_unguarded_cycle :
   have := hr 0 rfl 0 (by simp)
   omega
 
-/-- non-vacuity: a recursive schema with `type` (IsEmpty stops at once) terminates although the graph is cyclic -/
+/-- non-vacuity, and former finding F-C20-8 (EmptyCycle, repaired by 08457da): a descent that stops at once
+    (`visitJSON` now asks `!hasSubSchemas()` BEFORE `IsEmpty()`, so `IsEmpty` is only entered for schemas
+    without sub-schemas) terminates although the graph is cyclic -/
 theorem descend_example :
     Ranked (fun i => if i = 0 then [1] else if i = 1 then [0] else []) (fun i => i == 1) (fun i => if i = 0 then 1 else 0) ∧
-    descend (fun i => if i = 0 then [1] else if i = 1 then [0] else []) (fun i => i == 1) 2 0 = some false := by
-  refine ⟨?_, by decide⟩
+    descend (fun i => if i = 0 then [1] else if i = 1 then [0] else []) (fun i => i == 1) 2 0 = some false ∧
+    descend (fun _ => [0]) (fun _ => true) 1 0 = some false := by
+  refine ⟨?_, by decide, by decide⟩
   intro i hs c hc
   by_cases h0 : i = 0
   · subst h0; simp at hc; subst hc; simp
@@ -232,47 +379,196 @@ theorem descend_example :
     · subst h1; simp at hs
     · simp [h0, h1] at hc
 
-/-- `derefPaths` of InternalizeRefs (path item → callbacks of its operations → their path items, no visited
-    set): total when that graph has no cycle. Full statement fails on `witness_unguarded_cycle`
-    (finding CallbackCycle). -/
-theorem internalize_total_partial (g : Graph) (rank : Nat → Nat) (hr : Ranked g (fun _ => false) rank)
-    (i : Nat) : ∃ b, descend g (fun _ => false) (rank i + 1) i = some b :=
-  descend_total_aux g _ rank hr (rank i + 1) i (Nat.le_refl _)
+/-! ## `InternalizeRefs` does not panic — partial (findings Unresolved, UnwalkedRef) -/
 
-/-! ## document-level exclusion predicates are inhabited (kernel-evaluated on concrete documents) -/
-
-section DocWitnesses
+section Internalize
 open KinModel.LoadDoc
 
-/-- `requestBody.content.*.examples: {e: null}` -/
-def docNullExample : JV := .obj [("paths", .obj [("/a", .obj [("post", .obj [("requestBody", .obj [("content", .obj [("application/json", .obj [("examples", .obj [("e", .null)])])])])])])])]
-/-- `servers: [null]` -/
-def docNullServer : JV := .obj [("servers", .arr [.null])]
-/-- `components.links.L: {$ref: …}` -/
-def docLinkRef : JV := .obj [("components", .obj [("links", .obj [("L", .obj [("$ref", .str "#/components/links/M")])])])]
-/-- `encoding.f.headers.X: {$ref: …}` -/
-def docEncodingHeader : JV := .obj [("paths", .obj [("/a", .obj [("post", .obj [("requestBody", .obj [("content", .obj [("multipart/form-data", .obj [("encoding", .obj [("f", .obj [("headers", .obj [("X", .obj [("$ref", .str "#/components/headers/H")])])])])])])])])])])]
-/-- a plain valid skeleton: no class holds -/
-def docPlain : JV := .obj [("components", .obj [("schemas", .obj [("A", .obj [("type", .str "object")])])]), ("paths", .obj [])]
+/-- the wrapper at (doc, h) has a location (`refPath`) -/
+def Located (st : St) (doc h : Nat) : Prop := st.pathed.contains (nodeId doc h) = true
+
+/-- Full statement `∀ st doc h j pe, ∃ b, addToSpec st doc h j pe = .ok b` is false (witness below).
+    `DefaultRefNameResolver` is reached through `add<Kind>ToSpec` only, and it panics only at a wrapper without
+    location: wherever the loader left a location the call returns. -/
+theorem addToSpec_partial (st : St) (doc h : Nat) (j : JV) (pe : Bool) (hl : Located st doc h) :
+    ∃ b, addToSpec st doc h j pe = .ok b := by
+  unfold addToSpec
+  unfold Located at hl
+  split
+  · exact ⟨false, rfl⟩
+  · simp only [hl, if_true]
+    split
+    · exact ⟨true, rfl⟩
+    · exact ⟨false, rfl⟩
+
+/-- finding Unresolved (F-C20-5, what is left of it): `T: {$ref: "#"}` — the text resolves to the empty
+    extension map, re-decoded into an empty wrapper: `errMUSTSchema`, swallowed BEFORE `setRefPath`; the load
+    succeeds, `T` has neither value nor location and the text stays in `visitedRefs` -/
+def wHash : World where
+  texts := [5]
+  target := fun _ t _ => if t = 5 then .raw (.mk 8 0 .schema none true []) else .err
+
+theorem witness_unresolved_pathless :
+    (match load cfgChecked wHash 10 [.mk 2 0 .schema (some 5) false []] with
+     | .ok st => !st.value.contains 2 && !st.pathed.contains 2 && st.inprog.contains 5
+     | _ => false) = true := by
+  decide
 
 set_option maxRecDepth 100000 in
-theorem witness_null_wrapper : nullWrapper (docPositions docNullExample) = true := by decide +kernel
+/-- … and `addSchemaToSpec` hands such a wrapper to the name resolver when its text does not start with
+    `#/components/` (or its parent is external): the model's outcome is the panic, the spec demands a return -/
+theorem witness_name_resolver_panics :
+    (match addToSpec St.init 0 7 (.obj [("$ref", .str "#")]) false with | .error _ => true | .ok _ => false) = true ∧
+    (match addToSpec St.init 0 7 (.obj [("$ref", .str "#/components/parameters/P")]) true with | .error _ => true | .ok _ => false) = true ∧
+    (match addToSpec St.init 0 7 (.obj [("$ref", .str "#/components/parameters/P")]) false with | .error _ => false | .ok _ => true) = true ∧
+    ¬ Located St.init 0 7 := by
+  refine ⟨by decide +kernel, by decide +kernel, by decide +kernel, by simp [Located, St.init]⟩
+
+def jRefAndContent : JV := .obj [("$ref", .str "#/paths/~1b"), ("get", .obj [("parameters", .arr [.obj [("$ref", .str "#/components/parameters/P")]])])]
+
 set_option maxRecDepth 100000 in
-theorem witness_null_member : nullMember (docPositions docNullServer) = true := by decide +kernel
-set_option maxRecDepth 100000 in
-theorem witness_encoding_header : encodingHeader (docPositions docEncodingHeader) = true := by decide +kernel
-set_option maxRecDepth 100000 in
-/-- finding #13: the typed positions of the document contain a reference under `components.links`, a
-    member `ResolveRefsIn` does not iterate (`rootNodes` has no `links` line) -/
-theorem witness_unwalked_position :
-    (docPositions docLinkRef).any (fun p => p.ty == .ptr (.struct "LinkRef") && p.ctx == "Components.links" && p.j.refText?.isSome) = true := by
+/-- finding UnwalkedRef (F-C20-11, what is left of it): a path item with `$ref` AND content of its own —
+    `resolvePathItemRef` returns at `!pathItem.isEmpty()`, the walk gives it no children, so the parameter
+    reference below it is never resolved, while `derefPaths` does descend into it with `pathIsExternal` -/
+theorem witness_unwalked_path_item :
+    (toNode 10 0 .pathItem 1 jRefAndContent).kids.length = 0 ∧ (toNode 10 0 .pathItem 1 jRefAndContent).ref.isNone = true ∧
+    (toNode 10 0 .pathItem 1 (.obj [("get", .obj [("parameters", .arr [.obj [("$ref", .str "#/components/parameters/P")]])])])).kids.length = 1 := by
   decide +kernel
-set_option maxRecDepth 100000 in
-theorem nonvacuous_doc_classes :
-    nullWrapper (docPositions docPlain) = false ∧ nullMember (docPositions docPlain) = false ∧
-    encodingHeader (docPositions docPlain) = false ∧ (docPositions docPlain).length ≥ 5 := by decide +kernel
 
-end DocWitnesses
+end Internalize
+
+/-! ## whole documents, kernel-evaluated: the former witnesses (regressions: model = spec), the witnesses of
+    the open findings (model ≠ spec, inside the exclusion class), non-vacuity -/
+
+section Documents
+open KinModel.LoadDoc
+
+def mkDs (root : JV) (hasPath : Bool := false) : Docs := { root := root, files := [], ext := false, hasPath := hasPath }
+def isOk : Res → Bool | .ok _ => true | _ => false
+
+/-- F-C20-1: `A: {$ref: R}`, `R: {headers: {h: {$ref: R}}}` — while `A` resolves the text of `R` as a response,
+    the header `h` meets the same text (corpus f01_kindclash_in_progress) -/
+def dKindClash : JV := .obj [("components", .obj [("responses", .obj [
+  ("A", .obj [("$ref", .str "#/components/responses/R")]),
+  ("R", .obj [("description", .str "r"), ("headers", .obj [("h", .obj [("$ref", .str "#/components/responses/R")])])])])]), ("paths", .obj [])]
+/-- F-C20-4: an encoding header given by `$ref` (corpus f04_encoding_header_ref) -/
+def dEncHeader : JV := .obj [
+  ("components", .obj [("headers", .obj [("H", .obj [("schema", .obj [("type", .str "string")])])])]),
+  ("paths", .obj [("/a", .obj [("post", .obj [("requestBody", jEncHeader), ("responses", .obj [("200", .obj [("description", .str "ok")])])])])])]
+/-- F-C20-6: `examples: {e: null}` in a media type (corpus f06_null_example) -/
+def dNullExample : JV := .obj [("paths", .obj [("/a", .obj [("post", .obj [("requestBody", .obj [("content", .obj [("application/json", .obj [("examples", .obj [("e", .null)])])])])])])])]
+/-- F-C20-7: null members (corpus f07_null_members) -/
+def dNullMembers : JV := .obj [("servers", .arr [.null]), ("tags", .arr [.null]),
+  ("paths", .obj [("/a", .obj [("$ref", .str "#/paths/~1b"), ("parameters", .arr [.null])]), ("/b", .obj [("get", .obj [("responses", .obj [("200", .obj [("description", .str "ok")])])])])])]
+/-- F-C20-10: a callback whose path item refers back to the path item of its operation (corpus f10_callback_cycle) -/
+def dCallbackCycle : JV := .obj [
+  ("components", .obj [("callbacks", .obj [("C", .obj [("/cb", .obj [("$ref", .str "#/paths/~1a")])])])]),
+  ("paths", .obj [("/a", .obj [("get", .obj [("callbacks", .obj [("c", .obj [("$ref", .str "#/components/callbacks/C")])]),
+     ("responses", .obj [("200", .obj [("description", .str "ok")])])])])])]
+/-- F-C20-11: `components.links.L: {$ref: …}` (corpus f11_unwalked_components_links) -/
+def dCompLinks : JV := .obj [("components", .obj [("links", .obj [("L", .obj [("$ref", .str "#/components/links/M")]), ("M", .obj [("operationId", .str "x")])])]), ("paths", .obj [])]
+/-- F-C20-8: a cycle of schemas without own keywords below an example (corpus f08_empty_cycle_properties_example) -/
+def dEmptyCycle : JV := .obj [("components", .obj [("schemas", .obj [("A", .obj [("properties", .obj [("n", .obj [("$ref", .str "#/components/schemas/A")])]), ("example", .obj [])])])]), ("paths", .obj [])]
+/-- path-item references: a chain, a 2-cycle and a self-reference (9b25d89) -/
+def dPathItemRefs : JV := .obj [("paths", .obj [
+  ("/a", .obj [("$ref", .str "#/paths/~1b")]), ("/b", .obj [("$ref", .str "#/paths/~1c")]),
+  ("/c", .obj [("get", .obj [("responses", .obj [("200", .obj [("description", .str "ok")])])])]),
+  ("/d", .obj [("$ref", .str "#/paths/~1e")]), ("/e", .obj [("$ref", .str "#/paths/~1d")]), ("/f", .obj [("$ref", .str "#/paths/~1f")])])]
+
+set_option maxRecDepth 1000000 in
+/-- the repaired findings: on every former witness the model's outcome is the spec's (`[]`: every operation
+    returns normally); what the load returns is stated next to it -/
+theorem regression_documents :
+    (outcome codeCfg (mkDs dKindClash)).abnormal = specAbnormal ∧ (outcome codeCfg (mkDs dKindClash)).load = .err ∧
+    (outcome codeCfg dsNilTarget).abnormal = specAbnormal ∧ (outcome codeCfg dsNilTarget).load = .err ∧
+    (outcome codeCfg dsDrillNil).abnormal = specAbnormal ∧ (outcome codeCfg dsDrillNil).load = .err ∧
+    (outcome codeCfg (mkDs dEncHeader)).abnormal = specAbnormal ∧ isOk (outcome codeCfg (mkDs dEncHeader)).load = true ∧
+    (outcome codeCfg (mkDs docNullMember true)).abnormal = specAbnormal ∧
+    (outcome codeCfg (mkDs dNullExample)).abnormal = specAbnormal ∧ (outcome codeCfg (mkDs dNullExample)).load.normal = true ∧
+    (outcome codeCfg (mkDs dNullMembers)).abnormal = specAbnormal ∧
+    (outcome codeCfg (mkDs dCallbackCycle)).abnormal = specAbnormal ∧ isOk (outcome codeCfg (mkDs dCallbackCycle)).load = true ∧
+    (outcome codeCfg (mkDs dCompLinks)).abnormal = specAbnormal ∧ isOk (outcome codeCfg (mkDs dCompLinks)).load = true ∧
+    (outcome codeCfg (mkDs dEmptyCycle)).abnormal = specAbnormal ∧
+    (outcome codeCfg (mkDs dPathItemRefs)).abnormal = specAbnormal ∧ isOk (outcome codeCfg (mkDs dPathItemRefs)).load = true := by
+  decide +kernel
+
+set_option maxRecDepth 1000000 in
+/-- the same documents under the configuration of the code before a04fe6c / 25200f7: the loader model panics —
+    what the table obligations `asserts_comma_ok` and `code_cfg_checked` protect against -/
+theorem old_code_panics_on_them :
+    (match (outcome oldCfg (mkDs dKindClash)).load with | .panic .assertKind => true | _ => false) = true ∧
+    (match (outcome oldCfg dsNilTarget).load with | .panic .typedNil => true | _ => false) = true ∧
+    (match (outcome oldCfg dsDrillNil).load with | .panic .drill => true | _ => false) = true := by
+  decide +kernel
+
+/-- finding Unresolved: `T: {$ref: "#"}` (corpus f05_ref_hash) -/
+def dHash : JV := .obj [("components", .obj [("schemas", .obj [("T", .obj [("$ref", .str "#")])])]), ("paths", .obj [])]
+/-- finding Unresolved, left by a04fe6c: the ignored callback of another kind (corpus f05_kind_mismatch_ignored) -/
+def dMix : JV := .obj [("components", .obj [("responses", .obj [("R", .obj [("$ref", .str "#/x-r")])])]), ("paths", .obj []),
+  ("x-r", .obj [("description", .str "d"), ("headers", .obj [("h", .obj [("$ref", .str "#/x-r")])])])]
+/-- finding UnwalkedRef: a path item with `$ref` and content (corpus f11_pathitem_ref_and_content) -/
+def dRefAndContent : JV := .obj [
+  ("components", .obj [("parameters", .obj [("P", .obj [("name", .str "p"), ("in", .str "query"), ("schema", .obj [("type", .str "string")])])])]),
+  ("paths", .obj [("/a", .obj [("$ref", .str "#/paths/~1b"), ("get", .obj [("parameters", .arr [.obj [("$ref", .str "#/components/parameters/P")]]),
+      ("responses", .obj [("200", .obj [("description", .str "ok")])])])]),
+    ("/b", .obj [("get", .obj [("responses", .obj [("200", .obj [("description", .str "ok")])])])])])]
+/-- finding CompositionCycle: `A: {type: object, allOf: [{$ref: A}], default: {}}` (corpus f09_composition_cycle_default) -/
+def dComposition : JV := .obj [("openapi", .str "3.0.0"), ("components", .obj [("schemas", .obj [("A", .obj [("type", .str "object"),
+  ("allOf", .arr [.obj [("$ref", .str "#/components/schemas/A")]]), ("default", .obj [])])])]), ("paths", .obj [])]
+
+/-- finding CallbackCycle, what 1c81ad5 left: an INLINE callback whose path item refers back to the path item of
+    its operation (corpus f10_inline_callback_cycle) -/
+def dInlineCallbackCycle : JV := .obj [("paths", .obj [("/a", .obj [("get", .obj [
+  ("callbacks", .obj [("c", .obj [("/cb", .obj [("$ref", .str "#/paths/~1a")])])]),
+  ("responses", .obj [("200", .obj [("description", .str "ok")])])])])])]
+
+/-- finding HeaderCycle (new with 78418b3 + cbb0d05): a header that is a header of an encoding of its own content
+    (corpus f12_header_cycle) -/
+def dHeaderCycle : JV := .obj [("openapi", .str "3.0.0"), ("components", .obj [("headers", .obj [("H", .obj [("content", .obj [
+  ("multipart/form-data", .obj [("encoding", .obj [("f", .obj [("headers", .obj [("X", .obj [("$ref", .str "#/components/headers/H")])])])])])])])])]), ("paths", .obj [])]
+
+set_option maxRecDepth 1000000 in
+/-- the open findings: the load succeeds, the model's outcome is not the spec's, and exactly the class of the
+    finding holds -/
+theorem witness_documents :
+    isOk (outcome codeCfg (mkDs dHash)).load = true ∧
+    (outcome codeCfg (mkDs dHash)).abnormal = ["post"] ∧ (outcome codeCfg (mkDs dHash)).excl = ["Unresolved"] ∧
+    isOk (outcome codeCfg (mkDs dMix)).load = true ∧
+    (outcome codeCfg (mkDs dMix)).abnormal = ["post"] ∧ (outcome codeCfg (mkDs dMix)).excl = ["Unresolved"] ∧
+    isOk (outcome codeCfg (mkDs dRefAndContent)).load = true ∧
+    (outcome codeCfg (mkDs dRefAndContent)).abnormal = ["post"] ∧ (outcome codeCfg (mkDs dRefAndContent)).excl = ["UnwalkedRef"] ∧
+    (outcome codeCfg (mkDs dComposition)).abnormal = ["crash:visit"] ∧ (outcome codeCfg (mkDs dComposition)).excl = ["CompositionCycle"] ∧
+    isOk (outcome codeCfg (mkDs dInlineCallbackCycle)).load = true ∧ (outcome codeCfg (mkDs dInlineCallbackCycle)).hit.isNone = true ∧
+    (outcome codeCfg (mkDs dInlineCallbackCycle)).abnormal = ["crash:marshal"] ∧ (outcome codeCfg (mkDs dInlineCallbackCycle)).excl = ["CallbackCycle"] ∧
+    isOk (outcome codeCfg (mkDs dHeaderCycle)).load = true ∧
+    (outcome codeCfg (mkDs dHeaderCycle)).abnormal = ["crash:validate"] ∧ (outcome codeCfg (mkDs dHeaderCycle)).excl = ["HeaderCycle"] ∧
+    specAbnormal = [] := by
+  decide +kernel
+
+/-- non-vacuity: a document with a recursive schema, a parameter, a response with a header, a link and an
+    example by reference: no class holds, the load succeeds and resolves every reference -/
+def dPlain : JV := .obj [
+  ("components", .obj [
+    ("schemas", .obj [("Pet", .obj [("type", .str "object"), ("properties", .obj [("parent", .obj [("$ref", .str "#/components/schemas/Pet")])])])]),
+    ("headers", .obj [("H", .obj [("schema", .obj [("type", .str "string")])])]),
+    ("examples", .obj [("E", .obj [("value", .num "nz")])]),
+    ("links", .obj [("L", .obj [("operationId", .str "x")])]),
+    ("parameters", .obj [("P", .obj [("name", .str "p"), ("in", .str "query"), ("schema", .obj [("$ref", .str "#/components/schemas/Pet")]),
+        ("examples", .obj [("e", .obj [("$ref", .str "#/components/examples/E")])])])])]),
+  ("paths", .obj [("/a", .obj [("get", .obj [("parameters", .arr [.obj [("$ref", .str "#/components/parameters/P")]]),
+    ("responses", .obj [("200", .obj [("description", .str "ok"), ("headers", .obj [("h", .obj [("$ref", .str "#/components/headers/H")])]),
+        ("links", .obj [("l", .obj [("$ref", .str "#/components/links/L")])])])])])])])]
+
+set_option maxRecDepth 1000000 in
+theorem nonvacuous_document :
+    (outcome codeCfg (mkDs dPlain)).abnormal = specAbnormal ∧ (outcome codeCfg (mkDs dPlain)).excl = [] ∧
+    (match (outcome codeCfg (mkDs dPlain)).load with
+     | .ok st => (refIdsOfs (build codeCfg (mkDs dPlain)).roots).length == 6 &&
+                 (refIdsOfs (build codeCfg (mkDs dPlain)).roots).all (fun i => st.value.contains i && st.pathed.contains i) && st.inprog.isEmpty
+     | _ => false) = true := by
+  decide +kernel
+
+end Documents
 
 /-! ## obligations over the regenerated tables -/
 
@@ -283,13 +579,18 @@ theorem types_all_recognised : Gen.c20Fields.all (fun f => f.ty.recognised) = tr
 theorem resolvers_all_recognised :
     Gen.c20Resolvers.length = 10 ∧ Gen.c20Resolvers.all (fun r => r.resolved != "unrecognised") = true := by decide
 
-/-- the assertion in each backtrack callback asserts exactly the value type of ITS resolver's wrapper
-    (so it can only fail when the text was resolved by a resolver of another kind: finding #12),
-    or is in comma-ok form -/
-theorem asserts_own_kind :
-    Gen.c20Resolvers.all (fun r => r.commaOk ||
-      (r.asserted == "*PathItem" && r.resolved == "PathItem") ||
-      (Gen.c20Wrappers.any (fun w => w.1 == r.resolved && w.2 == .ptr (.struct (r.asserted.drop 1).copy)))) = true := by decide
+/-- a04fe6c: the assertion in EVERY backtrack callback has the comma-ok form, and asserts the value type of
+    its own resolver's wrapper -/
+theorem asserts_comma_ok :
+    Gen.c20Resolvers.all (fun r => r.commaOk &&
+      ((r.asserted == "*PathItem" && r.resolved == "PathItem") ||
+       (Gen.c20Wrappers.any (fun w => w.1 == r.resolved && w.2 == .ptr (.struct (r.asserted.drop 1).copy))))) = true := by decide
+
+/-- every resolver starts with its `isEmpty()` / nil test (cbb0d05 added the one of `resolveExampleRef`):
+    the model's `if empty then errMust` for every kind -/
+theorem resolvers_check_empty :
+    Gen.c20EmptyChecks.length = 10 ∧
+    Gen.c20EmptyChecks.all (fun e => e.2 == "component.isEmpty()" || (e.1 == "resolvePathItemRef" && e.2 == "pathItem == nil")) = true := by decide
 
 /-- every `resolved` argument handed to `resolveComponent` is a type `readableType` lists: its
     `panic("unreachable")` is unreachable -/
@@ -301,9 +602,14 @@ theorem other_asserts_known :
     Gen.c20OtherAsserts = [("drillIntoField", "val.Field(0).Interface().(map[string]any)")] := by decide
 
 /-- explicit panics: `readableType` (unreachable by `resolved_types_readable`) and `DefaultRefNameResolver`
-    (reached by finding #34, class `Unresolved`) — no other -/
+    (reached by the findings Unresolved / UnwalkedRef) — no other -/
 theorem explicit_panics_known :
     Gen.c20ExplicitPanics = [("loader.go", "readableType"), ("internalize_refs.go", "DefaultRefNameResolver")] := by decide
+
+/-- the conditions of the drill closure are the ones the drill-down model was written from -/
+theorem drill_conditions_known :
+    Gen.c20DrillConds = ["pathPart == \"\"", "pathPart == \"additionalProperties\" && c.Value != nil", "ap != nil",
+      "!attempted", "err != nil", "cursor == nil || isNilPointer(cursor)"] := by decide
 
 /-- every recursive call of `(*Schema).validate` on a sub-schema (`….Value`) is `validate`, passes the
     stack and assigns the returned stack back — the hypothesis under which `validate_total` models the code -/
@@ -312,18 +618,64 @@ theorem validateEdges_thread_stack :
     (Gen.c20ValidateEdges.filter (fun e => e.src == "Value")).length = 7 ∧
     Gen.c20ValidateEdges.all (fun e => e.src != "unrecognised") = true := by decide
 
-/-- `internalizedPositions ⊆ walkedPositions` — partial: full statement fails exactly at `Encoding`
-    (finding #41, class `EncodingHeaderRef`): InternalizeRefs descends into a position the loader never walks -/
-theorem internalized_positions_walked_partial :
-    Gen.c20InternalizeSelectors.all (fun s => s == "Encoding" || Gen.c20LoaderSelectors.contains s) = true := by decide
+/-- `internalizedPositions ⊆ walkedPositions` — full strength since cbb0d05 (`resolveContentRefs` walks the
+    headers of the encodings): InternalizeRefs descends into no position the loader's walk does not select -/
+theorem internalized_positions_walked :
+    Gen.c20InternalizeSelectors.all (fun s => Gen.c20LoaderSelectors.contains s) = true := by decide
 
-theorem witness_encoding_unwalked :
-    Gen.c20InternalizeSelectors.contains "Encoding" = true ∧ Gen.c20LoaderSelectors.contains "Encoding" = false := by decide
+/-- the loader's walk is `ResolveRefsIn`, the ten resolvers and the two helpers the model's walk was written from -/
+theorem walk_functions_known :
+    Gen.c20WalkFuncs = ["ResolveRefsIn", "resolveCallbackRef", "resolveContentRefs", "resolveExampleRef", "resolveExampleRefs",
+      "resolveHeaderRef", "resolveLinkRef", "resolveParameterRef", "resolvePathItemRef", "resolveRequestBodyRef",
+      "resolveResponseRef", "resolveSchemaRef", "resolveSecuritySchemeRef"] := by decide
 
 /-- the positions the model's walk (`LoadDoc.toNode`) descends into are fields the loader selects -/
 theorem loader_selectors_cover_model_walk :
-    ["Schema", "Content", "Examples", "Headers", "Links", "Items", "Properties", "AdditionalProperties", "Not", "AllOf", "AnyOf", "OneOf",
+    ["Schema", "Content", "Examples", "Encoding", "Headers", "Links", "Items", "Properties", "AdditionalProperties", "Not", "AllOf", "AnyOf", "OneOf",
      "Parameters", "RequestBody", "Responses", "Callbacks", "Components", "Paths", "Schemas", "RequestBodies", "SecuritySchemes"].all
       (fun s => Gen.c20LoaderSelectors.contains s) = true := by decide
+
+/-- `LoadDoc.pathItemIsEmpty` and `LoadDoc.methodNames` follow `(*PathItem).isEmpty` and `(*PathItem).Operations` -/
+theorem path_item_shape_known :
+    Gen.c20PathItemIsEmpty = ["Summary", "Description", "Connect", "Delete", "Get", "Head", "Options", "Patch", "Post", "Put", "Trace", "Servers", "Parameters"] ∧
+    Gen.c20PathItemOps = ["Connect", "Delete", "Get", "Head", "Options", "Patch", "Post", "Put", "Trace"] ∧
+    LoadDoc.methodNames = ["connect", "delete", "get", "head", "options", "patch", "post", "put", "trace"] := by decide
+
+/-- 1c81ad5: every cycle of the call graph of InternalizeRefs' `deref…` functions passes through a function
+    that consults a visited set — without the guarded functions the graph is acyclic (the rank of
+    `internalize_total`); the guarded ones are exactly the three the walk model threads a set for -/
+theorem deref_cycles_guarded :
+    acyclicB (Gen.c20DerefCalls.filter (fun e => !Gen.c20DerefGuards.any (·.1 == e.1) && !Gen.c20DerefGuards.any (·.1 == e.2))) = true ∧
+    acyclicB Gen.c20DerefCalls = false ∧
+    Gen.c20DerefGuards = [("derefSchema", "isVisitedSchema"), ("derefHeaders", "isVisitedHeader"), ("derefPaths", "isVisitedPathItem")] := by
+  decide
+
+/-- the rank behind `internalize_total`, function by function: a guarded function has rank 0, every other
+    `deref…` function a rank above everything it calls -/
+def derefRank (f : String) : Nat :=
+  match [("derefExamples", 1), ("derefLinks", 1), ("derefContent", 2), ("derefParameter", 3), ("derefRequestBody", 3),
+         ("derefResponse", 3), ("derefResponseBodies", 4), ("derefResponses", 5), ("InternalizeRefs", 6)].find? (·.1 == f) with
+  | some p => p.2
+  | none => 0
+
+/-- along every call out of an unguarded function of internalize_refs.go the rank decreases -/
+theorem deref_rank_decreases :
+    Gen.c20DerefCalls.all (fun e => Gen.c20DerefGuards.any (·.1 == e.1) || decide (derefRank e.2 < derefRank e.1)) = true := by
+  decide
+
+/-- … which is the hypothesis `UnguardedRanked` of `internalize_total` for every object graph whose objects are
+    labelled with the function that handles them (`fn`), whose edges are calls of the table, and whose guarded
+    objects are those of the three guarded functions -/
+theorem unguardedRanked_of_calls (g : Graph) (fn : Nat → String) (guarded : Nat → Bool)
+    (hg : ∀ i, guarded i = Gen.c20DerefGuards.any (·.1 == fn i))
+    (he : ∀ i, ∀ c ∈ g i, (fn i, fn c) ∈ Gen.c20DerefCalls) :
+    UnguardedRanked g guarded (fun i => derefRank (fn i)) := by
+  intro i hi c hc
+  have hmem := he i c hc
+  have hall := List.all_eq_true.1 deref_rank_decreases _ hmem
+  simp only [Bool.or_eq_true, decide_eq_true_eq] at hall
+  rcases hall with h | h
+  · rw [hg i] at hi; simp [hi] at h
+  · exact h
 
 end KinModel.Props.C20
